@@ -29,8 +29,36 @@ structure Frame where
 
 def Frame.close (f : Frame) : Tree := .node f.name f.su f.td f.subs.reverse f.tests.reverse
 
+structure KillLine where
+  point : String
+  occ : Nat
+  how : String
+  test : String
+
+def howOf (h : String) : Death :=
+  if h = "exit" then .exit0 else if h = "_exit" then .uexit0 else .signal (h.toNat?.getD 9)
+
+def idxOf (l : List Step) (s : Step) : Nat := (l.findIdx? (· == s)).getD l.length
+
+/-- Translate a kill line into the model's kill plan for a test under a suite with fixtures `su td`. -/
+def planFor (k : KillLine) (su td : Bool) (t : Test) : Option KillPlan :=
+  let sc := script su td t
+  let d := howOf k.how
+  match k.point with
+  | "before_setup" => some { atStep := some 0, how := d }
+  | "after_setup" => some { atStep := some (idxOf sc (.ev .body)), how := d }
+  | "after_body" => some { atStep := some (idxOf sc (.ev .body) + 1 + t.body.length), how := d }
+  | "after_teardown" => some { atStep := some (idxOf sc (.ev .tally)), how := d }
+  | "after_tally" => some { atStep := some sc.length, how := d }
+  | "before_write" => some { atWrite := some (k.occ, false), how := d }
+  | "after_write" => some { atWrite := some (k.occ, true), how := d }
+  | "after_completion" => some { late := true, how := d }
+  | "at_exit" => some { late := true, how := d }
+  | _ => none
+
 structure PState where
   cfg : Cfg := {}
+  kill : Option KillLine := none
   single : Option String := none
   stack : List Frame := []
   root : Option Tree := none
@@ -49,6 +77,7 @@ def pline (ps : PState) (line : String) : PState :=
       else if mode.startsWith "single:" then
         { ps with cfg := { cap := c, mode := .inproc }, single := some (mode.drop 7).toString }
       else { ps with err := some s!"bad mode {mode}" }
+  | ["kill", point, occ, how, test] => { ps with kill := some { point := point, occ := occ.toNat?.getD 1, how := how, test := test } }
   | ["begin", name, su, td] => { ps with stack := { name := name, su := su = "1", td := td = "1" } :: ps.stack }
   | ["end"] =>
     match ps.stack with
@@ -62,6 +91,9 @@ def pline (ps : PState) (line : String) : PState :=
       match parseActs b, parseActs s, parseActs d, ps.stack with
       | some b, some s, some d, f :: fs =>
         let t : Test := { name := name, xskip := x = "1", ctx := if ctx = "1" then some (s, d) else none, body := b }
+        let t := match ps.kill with
+          | some k => if k.test = name then { t with kill := planFor k f.su f.td t } else t
+          | none => t
         { ps with stack := { f with tests := t :: f.tests } :: fs }
       | _, _, _, _ => { ps with err := some s!"bad test line {line}" }
     | _ => { ps with err := some s!"bad test line {line}" }
